@@ -682,6 +682,23 @@ func (cx *Ctx) checkDynamicIssuerPaths(r *Report) {
 		}
 		var got0 []string
 		leaves(p, p.Ret.Results[0], &got0, 0)
+		// the scheme may come from a helper of the flag alone (`issuerScheme(allowInsecure)`), http exactly when the flag
+		// is set: then it is right whatever the flag is, and this function does not branch on the flag
+		schemeByHelper := false
+		for _, part := range mergeLits(cx.strParts(onPath(p, p.Ret.Results[0]))) {
+			if part.IsLit {
+				continue
+			}
+			if sc, isC := part.Val.(*ssa.Call); isC && len(sc.Call.Args) == 1 && sc.Call.Args[0] == ssa.Value(di.Params[2]) && cx.isIssuerSchemeFn(calleeOf(sc)) {
+				schemeByHelper = true
+				for gi := range got0 {
+					if got0[gi] == fx.path(sc) {
+						got0[gi] = "const:https"
+					}
+				}
+			}
+			break
+		}
 		insecure, nonEmpty, hasPrefix, prefixKnown := false, false, false, false
 		for _, a := range p.Atoms {
 			switch {
@@ -722,7 +739,7 @@ func (cx *Ctx) checkDynamicIssuerPaths(r *Report) {
 		if strings.Contains(got[0], ">/<") {
 			sawSlash = true
 		}
-		if strings.HasPrefix(got[0], "http://") {
+		if strings.HasPrefix(got[0], "http://") || schemeByHelper {
 			sawHTTP = true
 		}
 	}
@@ -763,6 +780,15 @@ func (cx *Ctx) checkIssuerComposition(r *Report) {
 			for j, e := range phi.Edges {
 				if j < len(phi.Block().Preds) {
 					alts = append(alts, hostAlt{e, fx.AtomsOnEdge(phi.Block().Preds[j], phi.Block()), fmt.Sprintf("/%d", j)})
+				}
+			}
+		}
+		// ... or by a helper of its own (`forwardedOrRequestHost(r, headers)`): each of its returns, under what holds there
+		if hc, isC := args[0].(*ssa.Call); isC {
+			if g := calleeOf(hc); g != nil && g.Blocks != nil && g.Pkg != nil && isModulePath(g.Pkg.Pkg.Path()) && g.Signature.Results().Len() == 1 && len(returnsOf(g)) >= 2 {
+				alts = nil
+				for j, gr := range returnsOf(g) {
+					alts = append(alts, hostAlt{gr.Results[0], fx.AtomsAt(gr), fmt.Sprintf("/h%d", j)})
 				}
 			}
 		}
@@ -970,4 +996,38 @@ func (cx *Ctx) checkIssuerSchemeFlag(r *Report) {
 	}
 	flag := "param:provider.issuerFromForwardedOrHost$1/#0"
 	r.checkSources("R-VFG", "derived-issuer:scheme-flag", w.InstrPos(sites[0]), ls, []string{flag}, []string{flag}, true)
+}
+
+// isIssuerSchemeFn: f is a function of one boolean that returns "http" exactly when it is set and "https" otherwise
+// (what holds where it is called is not part of what it decides).
+func (cx *Ctx) isIssuerSchemeFn(f *ssa.Function) bool {
+	fx := cx.Fx
+	if f == nil || f.Blocks == nil || len(f.Params) != 1 || f.Signature.Results().Len() != 1 {
+		return false
+	}
+	aps, ok := fx.atomPaths(f, 16)
+	if !ok || len(aps) != 2 {
+		return false
+	}
+	seen := map[string]bool{}
+	for i := range aps {
+		p := &aps[i]
+		var own []Atom
+		for _, a := range p.Atoms {
+			if a.Cond != nil && a.Cond.Parent() != nil && a.Cond.Parent() != f {
+				continue
+			}
+			own = append(own, a)
+		}
+		k, isK := constString(fx.retVal(p, 0))
+		if !isK || len(own) != 1 || own[0].Op != "TRUE" || stripNot(own[0].Cond) != ssa.Value(f.Params[0]) {
+			return false
+		}
+		if k == "http" && !own[0].Neg || k == "https" && own[0].Neg {
+			seen[k] = true
+		} else {
+			return false
+		}
+	}
+	return seen["http"] && seen["https"]
 }
